@@ -242,7 +242,7 @@ func actionsDeep(stmts []ast.Stmt, prefix string) []string {
 }
 
 // extraGens: further Gen files, added as properties are built.
-func extraGens(root, st *pkg) []*genFile { return []*genFile{genRecv(root), genSession(root), genAuth(root, st), genComponent(root, st), genKeepalive(root), genSupervisor(root), genC01(st), genRouter(root), genDispatch(st), genSendPath(root), genQueue(root, st), genBackoffUse(root), genTransport(root), genDecoder(root, st)} }
+func extraGens(root, st *pkg) []*genFile { return []*genFile{genRecv(root), genSession(root), genAuth(root, st), genComponent(root, st), genKeepalive(root), genSupervisor(root), genC01(st), genC01Schema(st), genRouter(root), genDispatch(st), genSendPath(root), genQueue(root, st), genBackoffUse(root), genTransport(root), genDecoder(root, st)} }
 
 // assignsTo lists, in source order, the right-hand sides assigned to the selector `sel` (e.g. "t.isSecure") in fn,
 // interleaved with the calls named in `marks` (so that the order "Handshake, isSecure=false, VerifyHostname,
